@@ -108,8 +108,8 @@ def seq_position_witness(st, L, esort):
 def dict_wf(st, t, d, ex=None):
     """Well-formedness of a dict value: `keys` enumerates exactly `dom`, without duplicates.
     (An invariant of every Python dict; the engine's own updates preserve it.)
-    With `dict_key_positions=True` in the contract also: every key sits at some position of `keys`."""
-    if ex is not None and getattr(ex.c, "dict_key_positions", False) and not _once(st, ("dictkeypos", d.get_id()), d):
+    Unless the contract says `dict_key_positions=False` also: every key sits at some position of `keys`."""
+    if (ex is None or getattr(ex.c, "dict_key_positions", True)) and not _once(st, ("dictkeypos", d.get_id()), d):
         s = t.sort()
         ks, dom = s.keys(d), s.dom(d)
         pos = z3.Function(fresh_name("keypos"), t.k.sort(), z3.IntSort())
@@ -240,28 +240,102 @@ def _len(ex, st, args, kwargs, node):
     return ops.length(v)
 
 
-@builtin("builtins.sorted", "sorted(c) = the elements of c in increasing order (opaque spec function sorted_T)")
+def sort_key_args(ex, kwargs, node):
+    """-> (key closure | None, reverse: bool); anything else is outside the subset"""
+    key, rev = kwargs.get("key"), kwargs.get("reverse")
+    extra = set(kwargs) - {"key", "reverse"}
+    if extra:
+        raise Unsupported(f"sorted({sorted(extra)[0]}=)", node)
+    if rev is not None and not is_const(rev):
+        raise Unsupported("sorted(reverse=<symbolic>)", node)
+    if key is not None and key.is_py and key.py is None:
+        key = None
+    if key is not None and not getattr(ex.c, "sorted_axioms", False):
+        raise Unsupported("sorted(key=): needs sorted_axioms=True in the contract", node)
+    return key, bool(rev.py) if rev is not None else False
+
+
+def sorted_facts(ex, st, src: Val, r, et, key, reverse, node):
+    """Trusted axioms of sorting (contract option sorted_axioms=True), r = the sorted list of `src`:
+    same element set, same length (lists) / no duplicates (sets, dict keys), ordered w.r.t. the key."""
+    x = fresh(et, "sx")
+    i, j = z3.Int(fresh_name("si")), z3.Int(fresh_name("sj"))
+    n = z3.Length(r)
+    t = src.ty
+    if isinstance(t, T.List):
+        s = lift(src)
+        st.assume(n == z3.Length(s))
+        st.assume(z3.ForAll([x], z3.Contains(r, z3.Unit(x)) == z3.Contains(s, z3.Unit(x))))
+        seq_member_facts(st, r)
+        seq_member_facts(st, s)
+        seq_position_witness(st, r, et.sort())
+        strict = False
+    else:
+        dom = lift(src) if isinstance(t, T.Set) else t.sort().dom(lift(src))
+        st.assume(z3.ForAll([x], z3.Contains(r, z3.Unit(x)) == z3.Select(dom, x)))
+        st.assume(z3.ForAll([i], z3.Implies(z3.And(0 <= i, i < n), z3.Select(dom, r[i]))))
+        st.assume((n == 0) == (dom == z3.K(et.sort(), z3.BoolVal(False))))
+        if isinstance(t, T.Dict):
+            dict_wf(st, t, lift(src), ex)
+            st.assume(n == z3.Length(t.sort().keys(lift(src))))
+        strict = key is None  # distinct elements: strictly increasing (with a key: only distinct)
+        if key is not None:
+            st.assume(z3.ForAll([i, j], z3.Implies(z3.And(0 <= i, i < j, j < n), r[i] != r[j])))
+
+    def keyof(term):
+        v = Val(et, term)
+        if key is None:
+            return v
+        kv = ex.apply(key, [v], {}, st, node)
+        return _item_val(kv)
+
+    ex.qstack.append(([i, j], z3.And(0 <= i, i < j, j < n)))
+    ex.qouter.append(st)
+    try:
+        a, b = keyof(r[i]), keyof(r[j])
+    finally:
+        ex.qstack.pop()
+        ex.qouter.pop()
+    if a.ty == T.BOOL:
+        a, b = coerce(a, T.INT), coerce(b, T.INT)
+    if not (T.is_num(a.ty) or a.ty == T.STR or isinstance(a.ty, T.Tuple)):
+        raise Unsupported(f"sorted(): no order on {a.ty}", node)
+    op = (ast.Gt() if strict else ast.GtE()) if reverse else (ast.Lt() if strict else ast.LtE())
+    st.assume(z3.ForAll([i, j], z3.Implies(z3.And(0 <= i, i < j, j < n), z3bool(ops.compare(op, a, b, node)))))
+
+
+@builtin("builtins.sorted", "sorted(c) = the elements of c in increasing order (spec function sorted_T; with sorted_axioms=True: same elements, same length, ordered)")
 def _sorted(ex, st, args, kwargs, node):
     args = [materialize(ex, a) for a in args]
     (v,) = args
-    if kwargs:
-        raise Unsupported("sorted(key=/reverse=)", node)
-    if is_const(v):
-        return Val.const(sorted(v.py))
+    key, reverse = sort_key_args(ex, kwargs, node)
+    if is_const(v) and key is None:
+        return Val.const(sorted(v.py, reverse=reverse))
     info = carrier_info(v)
     if info is not None:
         meta = getattr(info, "dict_items", None)
         v = carrier_to_set(ex, st, info, node) if (meta is not None and meta[2] == "keys") else carrier_to_list(ex, st, info, node)
+    if v.is_py and isinstance(v.py, (list, tuple)) and v.py:
+        items = [x if isinstance(x, Val) else Val.const(x) for x in v.py]
+        v = Val(T.List(items[0].ty), lift(Val(PYOBJ, None, list(items), True), T.List(items[0].ty)))
     t = v.ty
     if isinstance(t, T.Set):
-        return Val(T.List(t.elem), sorted_fn(t, t.elem)(lift(v)))
-    if isinstance(t, T.List):
-        return Val(t, sorted_fn(t, t.elem)(lift(v)))
-    if isinstance(t, T.Dict):
-        d = t.sort()
-        st_ = T.Set(t.k)
-        return Val(T.List(t.k), sorted_fn(st_, t.k)(d.dom(lift(v))))
-    raise Unsupported(f"sorted() of {t}", node)
+        src, et, arg = v, t.elem, lift(v)
+    elif isinstance(t, T.List):
+        src, et, arg = v, t.elem, lift(v)
+    elif isinstance(t, T.Dict):
+        src, et, arg = v, t.k, t.sort().dom(lift(v))
+        t = T.Set(t.k)
+    else:
+        raise Unsupported(f"sorted() of {t}", node)
+    if key is None and not reverse:
+        r = sorted_fn(t, et)(arg)
+    else:
+        # a sort with key= / reverse= is its own function of the input (fresh per call site)
+        r = z3.Function(fresh_name("sortedby"), arg.sort(), z3.SeqSort(et.sort()))(arg)
+    if getattr(ex.c, "sorted_axioms", False):
+        sorted_facts(ex, st, src, r, et, key, reverse, node)
+    return Val(T.List(et), r)
 
 
 @builtin("builtins.set", "set(c) = the set of elements of c")
@@ -885,8 +959,8 @@ def mutate(ex, st, recv: Val, name, args, kwargs, node):
             return Val(t, z3.Extract(s, 0, n - 1)), Val(t.elem, s[n - 1])
         if name == "clear":
             return Val(t, z3.Empty(t.sort())), none
-        if name == "sort" and not kwargs:
-            return Val(t, sorted_fn(t, t.elem)(s)), none
+        if name == "sort":
+            return _sorted(ex, st, [recv], kwargs, node), none
         if name == "reverse":
             f = z3.Function("reversed_" + T._mangle(t), t.sort(), t.sort())
             return Val(t, f(s)), none
